@@ -53,6 +53,11 @@ func Mounts() *mount.Builder {
 
 // NewEnv builds a container environment; scratch is a directory under which the root is created.
 func NewEnv(scratch string, stderr *os.File) (container.Environment, error) {
+	return NewEnvWith(scratch, stderr, nil)
+}
+
+// NewEnvWith lets the caller adjust the builder.
+func NewEnvWith(scratch string, stderr *os.File, adjust func(*container.Builder)) (container.Environment, error) {
 	b := container.Builder{
 		Root:    scratch,
 		TmpRoot: "ct",
@@ -60,6 +65,9 @@ func NewEnv(scratch string, stderr *os.File) (container.Environment, error) {
 	}
 	if stderr != nil {
 		b.Stderr = stderr
+	}
+	if adjust != nil {
+		adjust(&b)
 	}
 	return b.Build()
 }
